@@ -4,6 +4,25 @@ written by tools/run_seeded.py."""
 import json, os
 ROOT = os.path.dirname(os.path.dirname(os.path.abspath(__file__)))
 D = {
+ "C01-c": ("the flip that realises a negative-step slice is only applied when a real selection was made", "a slice reversing a WHOLE axis with every indexed axis kept at full length (x[::-1], x[:, ::-1], x[..., ::-1])"),
+ "C02-c": ("requested-array veto folded into predecessor_ops_and_arrays(array_names) but not passed by fuse_predecessors", "several arrays computed together; a requested array is the only-consumer input of an op with >= 2 predecessor ops"),
+ "C03-c": ("general_blockwise computes the output memory once, from the LAST output's chunk size", "a multi-output op whose earlier output has larger chunks than the last one and little extra_projected_mem"),
+ "C04-c": ("can_fuse_multiple_primitive_ops de-duplicates predecessors by identity before peak_projected_mem; fuse_multiple does not", "the same lazy array in two argument positions and allowed_mem between the unfused and the fused projection"),
+ "C05-c": ("same change as C05-b / C14-a (chosen independently a third time)", "as C05-b"),
+ "C06-c": ("CubedArrayProxy.open() caches the opened array (dropped on pickling)", "b.compute() followed by to_zarr(b, ...) of the same lazy array on an in-process executor"),
+ "C07-c": ("processes executor pickles kwargs once per operation NAME; refills and backups pass no name", "processes executor with batch_size (or backups) and >= 2 operations with more tasks than the batch size"),
+ "C08-c": ("the next batch is submitted right after asyncio.wait, before this round's results are delivered", "use_backups with batch_size=1: the withdrawn twin was all that was pending, unsent inputs are dropped silently"),
+ "C09-c": ("already_computed: nchunks_initialized != nchunks -> <", "sharded store target with a ragged edge, crash late in the shard writes (exposed the genuine defect F27)"),
+ "C10-c": ("whole-target stores create the LazyZarrArray with overwrite=True", "a stored array recomputed (directly or through a descendant) with resume=True"),
+ "C11-c": ("same change as C06-c (chosen independently)", "as C06-c"),
+ "C12-c": ("_partial_reduce skips reduce_func when an initial function is given", "core reduction whose per-chunk func only maps, with a first-round group of a single block (blocks = 1 mod 4)"),
+ "C13-c": ("per-operation end events emitted from a closure that reads the loop variable late", "compute_arrays_in_parallel=True with >= 2 operations in one generation"),
+ "C14-c": ("same change as C14-a (chosen independently)", "as C05-b"),
+ "C15-c": ("fused key function evaluates the predecessor key function once per distinct ChunkKey", "the same array in two argument positions of a fused op whose predecessor yields an iterator of blocks"),
+ "C16-c": ("_check_target_path opens the root group with mode 'a' when a path is given", "to_zarr(x, store, path='sub/group', compute=False) on a store without a root group"),
+ "C17-c": ("tsqr layout check uses chunksize (the regular row chunk)", "qr/svd with a short LAST row chunk, e.g. (10, 3) chunks (4, 3)"),
+ "C18-c": ("Spec.__eq__ compares (executor name, spec.executor_options) and so ignores the options of an executor object", "two Specs equal but for executor objects of one class with different options"),
+ "C19-c": ("_r1_is_too_big: allowed_mem // (copies*2) without subtracting reserved_mem", "reserved_mem > 0 and a tall-skinny QR whose R1 lies between (allowed-reserved)/8 and allowed/8"),
  "C01-a": ("moveaxis builds the permutation in source order instead of destination order", "ndim >= 3 and at least two axes moved in a non-order-preserving way (12 of 81 source/destination pairs on 3-d)"),
  "C01-b": ("constant pad uses the leading fill value for the trailing pad", "constant_values given as a (before, after) pair with different values and pad_after > 0"),
  "C02-a": ("always_fuse override evaluated before the requested-array guard", "an always_fuse style optimizer + several requested arrays where one is a single-consumer input of another's op"),
